@@ -14,6 +14,7 @@
 -/
 import TypedpyModel.Lemmas.PyLex
 import TypedpyModel.Lemmas.SchemaToCode
+import TypedpyModel.Lemmas.SchemaEmit
 namespace Typedpy.C09
 open Typedpy Typedpy.PyLex
 
@@ -295,6 +296,122 @@ theorem emitted_required_example :
       = some ["b"] ∧
     requiredAfter (.obj [("a", .bool), ("b", .bool)] [("a", .bool true)] (some ["a", "b"]) true)
       = some ["a", "b"] := by decide
+
+/-! ## "always executes", syntactic part: the emitted module is Python
+
+  `Emit.moduleText` is the text of the module (`schema_definitions_to_code` + `schema_to_struct_code`
+  as assembled by the harness / by `write_code_from_schema`; the suite compares it character by
+  character with the real generator's output on every case), `PyGram.recognise` the recogniser of
+  the emitted Python subset (tokeniser with NEWLINE / INDENT / DEDENT, string literals judged by
+  `PyLex.lexSrc`, pushdown automaton for calls, keyword arguments, lists, dicts, `lambda:`, class
+  statements, annotated fields), corresponded with CPython's `compile` on the generated and on
+  mutated sources. -/
+
+open Typedpy.Emit Typedpy.PyGram
+
+/-- every well-formed expression tree prints to text that lexes to exactly its token sequence
+    (any nesting depth, any string literals) … -/
+theorem expr_tokens (X : Ora) (pr : Char → Bool) (e : PyExpr) (h : wf e = true) (rest : List Char)
+    (hr : DelimHead rest) (d : Nat) (ind : List Nat) :
+    lex X ⟨d, ind⟩ .mid (render pr e ++ rest) = prepend (toks e) (lex X ⟨d, ind⟩ .mid rest) :=
+  lex_expr X pr e h d ind rest hr
+
+/-- … and that token sequence is an expression of the grammar, in every context -/
+theorem expr_parses (e : PyExpr) (h : wf e = true) (σ : List Frame) (c : Bool) (φ : Phase) (rest : List Tok)
+    (hφ : φ ≠ .expr) :
+    parse ⟨σ, .operand c false, φ, false⟩ (toks e ++ rest) = parse ⟨σ, .afterOp (endsStr e), φ, false⟩ rest :=
+  parse_expr e h σ c φ rest hφ
+
+/-- the expression `convert_to_field_code` emits for ANY schema whose `$ref` / property names are
+    identifiers (property names distinct as keyword arguments and not `__debug__`) and whose enum
+    members / defaults are JSON values is well-formed — every keyword combination, any depth -/
+theorem field_code_wf (O : EOra) (hO : OraOk O) (s : Schema) (d : Option PyVal) (h : emitOk s d = true) :
+    wf (schemaExpr O s d) = true :=
+  schemaExpr_wf O hO s d h
+
+/-- integers are printed as decimal literals of the subset (no leading zeros), every `Nat` -/
+theorem nat_literal (n : Nat) : isNumText (natText n) = true := natText_num n
+
+/-- the tokens of the emitted module -/
+theorem emitted_module_tokens (X : Ora) (O : EOra) (hO : OraOk O) (write : Bool) (defs : List ClassSrc)
+    (main : ClassSrc) (hd : ∀ c ∈ defs, classSrcOk c = true) (hm : classSrcOk main = true) :
+    lex X lctx0 (.bol 0) (moduleText O write defs main) = .ok (modToks O defs main) :=
+  lex_module X O write defs main (fun c hc => classOk_of_src O hO c (hd c hc)) (classOk_of_src O hO main hm)
+
+/-- the full statement: the module emitted for ANY definitions and main schema compiles -/
+def always_compiles_statement : Prop :=
+  ∀ (X : Ora) (O : EOra) (write : Bool) (defs : List ClassSrc) (main : ClassSrc),
+    OraOk O → recognise X (moduleText O write defs main) = .accept
+
+/-- PARTIAL: the emitted module is accepted by the recogniser for ALL definition lists and main
+    schemas (any depth, any strings in patterns / enums / defaults / required / descriptions) with
+    the decidable exclusions `classSrcOk` (class, `$ref` and property names are ASCII identifiers
+    that are not keywords — property names also not `__debug__` and distinct as keyword arguments;
+    enum members and defaults are JSON values; no NUL in a description), `textClean` (no NUL / CR
+    character in the text) and `nestOk` (bracket nesting within CPython's 200 levels) -/
+theorem emitted_module_accepted_partial (X : Ora) (O : EOra) (hO : OraOk O) (write : Bool)
+    (defs : List ClassSrc) (main : ClassSrc)
+    (hd : ∀ c ∈ defs, classSrcOk c = true) (hm : classSrcOk main = true)
+    (hclean : textClean (moduleText O write defs main) = true)
+    (hnest : nestOk X (moduleText O write defs main) = true) :
+    recognise X (moduleText O write defs main) = .accept :=
+  recognise_module X O write defs main (fun c hc => classOk_of_src O hO c (hd c hc))
+    (classOk_of_src O hO main hm) hclean hnest
+
+/-- a concrete oracle for the examples: every non-ASCII character printable, every float `1.5` -/
+def exOra : EOra := ⟨fun _ => true, fun _ => ['1', '.', '5']⟩
+theorem exOra_ok : OraOk exOra := fun _ => by
+  show wf (floatExpr ['1', '.', '5']) = true
+  decide
+
+def objOf (name : String) : Schema := .obj [(name, .num true none none none false)] [] (some []) true
+
+set_option maxRecDepth 100000 in
+/-- finding `compile:name-not-identifier`, kernel-checked: a property called `my-prop`, `class`, `1a`
+    or `__debug__` is pasted into the source and the module is not Python -/
+theorem counterexample_name_not_identifier :
+    recognise Ora.ascii (moduleText exOra false [] ⟨"Foo", none, objOf "my-prop"⟩) = .reject ∧
+    recognise Ora.ascii (moduleText exOra false [] ⟨"Foo", none, objOf "class"⟩) = .reject ∧
+    recognise Ora.ascii (moduleText exOra false [] ⟨"Foo", none, objOf "__debug__"⟩) = .reject ∧
+    recognise Ora.ascii (moduleText exOra false [] ⟨"Foo", none,
+      .obj [("p", objOf "class")] [] (some []) true⟩) = .reject ∧
+    recognise Ora.ascii (moduleText exOra false [⟨"my-def", none, objOf "x"⟩] ⟨"Foo", none, objOf "y"⟩)
+      = .reject := by decide
+
+set_option maxRecDepth 100000 in
+/-- finding `unescaped:description-nul`, at module level: a NUL in the description is pasted raw -/
+theorem counterexample_description_nul :
+    recognise Ora.ascii (moduleText exOra false [] ⟨"Foo", some (String.singleton cNUL), objOf "p"⟩)
+      = .reject := by decide
+
+theorem always_compiles_statement_false : ¬ always_compiles_statement := fun h =>
+  absurd (h Ora.ascii exOra false [] ⟨"Foo", none, objOf "my-prop"⟩ exOra_ok)
+    (by rw [counterexample_name_not_identifier.1]; decide)
+
+def exDef : ClassSrc :=
+  ⟨"D_1", some "a \"\"\"doc\"\"\" \\ with\rhostile text",
+   .obj [("u", .num true none (some ⟨0, 1⟩) (some ⟨15, 2⟩) true), ("v", .str none (some 3) (some "^it's\\d\n"))]
+     [("v", .str "a'b")] (some ["u"]) false⟩
+
+def exMain : ClassSrc :=
+  ⟨"Foo", none,
+   .obj [("p", .ref "D_1"),
+         ("q", .arrPos [.enum [.str "x\"y", .int (-3), .none, .bool true, .list [.int 1]], .bool] false
+                  { min := some 1, max := none, uniq := true }),
+         ("r", .obj [("type", .mapOf (.anyOf [.ref "D_1", .notS [.bool]]) (some 1) (some 2))]
+                  [] (some ["type"]) false),
+         ("d", .arrAny {})]
+     [("d", .list [.int 1, .dict [(.str "k", .float ⟨3, 2⟩)]])] (some ["p", "d"]) true⟩
+
+set_option maxRecDepth 100000 in
+/-- non-vacuity: a module with a definition (hostile docstring, pattern, default), nested object,
+    positional array, enum with string / negative int / None / bool / nested list, map, combinators,
+    list/dict default behind `lambda:` satisfies the side conditions and is accepted -/
+theorem accepted_example :
+    classSrcOk exDef = true ∧ classSrcOk exMain = true ∧
+    textClean (moduleText exOra true [exDef] exMain) = true ∧
+    nestOk Ora.ascii (moduleText exOra true [exDef] exMain) = true ∧
+    recognise Ora.ascii (moduleText exOra true [exDef] exMain) = .accept := by decide
 
 /-! ## non-vacuity -/
 
